@@ -354,7 +354,19 @@ struct Driver {
     void run(const ev::Cmd& c) {
         HarnessThread ht;
         if (c.op == "reset") {
-            teardown();
+            // keep=1 (mode out, same seed): the real manager A of the previous behaviour stays alive; only its session to the harness
+            // peer ends, and A connects again under the same key -- frames of the new session must not reuse nonces of the old one
+            const bool keep = c.i("keep", 0) != 0 && A && mode == "out" && c.s("mode", "pair") == "out";
+            if (keep) {
+                HarnessThread hk;
+                gate_abort = true;
+                if (hs >= 0) ::shutdown(hs, SHUT_RDWR);
+                if (reader.joinable()) reader.join();
+                if (hs >= 0) { ::close(hs); hs = -1; }
+                for (long long dl = real_ms() + g_timeout_ms; real_ms() < dl && A->is_connected(idH);) usleep(200);
+            } else {
+                teardown();
+            }
             { std::scoped_lock l(g_obs_m); g_obs.clear(); }
             g_seen_AB = 0; g_seen_BA = 0; g_seen_wire = 0; g_maxalloc = 0; g_alloc_logged = false;
             accepted_AB = accepted_BA = accepted_wire = 0; expect_close = false; hclosed = false;
@@ -362,7 +374,7 @@ struct Driver {
             mode = c.s("mode", "pair");
             slow_us = c.i("slow", 0);
             const long long seed = c.i("seed", 1);
-            vrng::seed(0xC14C14ull + static_cast<unsigned long long>(seed) * 7919ull);
+            if (!keep) vrng::seed(0xC14C14ull + static_cast<unsigned long long>(seed) * 7919ull);   // a kept manager goes on drawing from its stream
             auto k = gen_payload(32, 0x5EED0000ull + static_cast<unsigned long long>(seed)); std::copy(k.begin(), k.end(), key.begin());
             const bool use_hs = c.i("hs", 1) != 0, use_ack = c.i("ack", 0) != 0;
             bool connected = false;
@@ -393,9 +405,11 @@ struct Driver {
                 for (long long dl = real_ms() + g_timeout_ms; connected && !B->is_connected(idA) && real_ms() < dl;) usleep(200);
                 connected = connected && B->is_connected(idA) && A->is_connected(idB);
             } else if (mode == "out") {
-                A = std::make_unique<SessionManager>(idA);
-                A->set_message_handler([this](const network::TransportMessage& m) { handler("HA", m); });
-                A->start(0);
+                if (!keep) {
+                    A = std::make_unique<SessionManager>(idA);
+                    A->set_message_handler([this](const network::TransportMessage& m) { handler("HA", m); });
+                    A->start(0);
+                }
                 int ls = ::socket(AF_INET, SOCK_STREAM, 0);
                 sockaddr_in addr{}; addr.sin_family = AF_INET; addr.sin_addr.s_addr = htonl(INADDR_LOOPBACK); addr.sin_port = 0;
                 if (c.i("rcvbuf", 0)) { int rb = static_cast<int>(c.i("rcvbuf")); ::setsockopt(ls, SOL_SOCKET, SO_RCVBUF, &rb, sizeof rb); }   // small window: the real sender blocks inside a frame
@@ -464,7 +478,7 @@ struct Driver {
                 reader = std::thread([this] { reader_loop(real_name() + "H"); });
             }
             ev::Ev e("reset");
-            e.s("mode", mode).bytes("key", key).i("max", static_cast<long long>(kMax)).b("connected", connected).b("gate", gate.load()).b("hs", use_hs).b("ack", use_ack).i("seed", seed);
+            e.s("mode", mode).bytes("key", key).i("max", static_cast<long long>(kMax)).b("connected", connected).b("gate", gate.load()).b("hs", use_hs).b("ack", use_ack).i("seed", seed).i("keep", keep ? 1 : 0);
             e.emit();
             flush();   // the handshake ack the real listener produced (in mode) is part of this behaviour's sends
         } else if (c.op == "send") {
